@@ -9,10 +9,10 @@ from vmc.core.report import Report
 PROP = "C02"
 
 
-def try_compile(program):
+def try_compile(program, dict_compress=True):
     """None if ok, else (stage, exception type, message)"""
     try:
-        code = sandbox.transpile(program)
+        code = sandbox.transpile(program, dict_compress)
     except RecursionError as e:
         return ("transpile", "RecursionError", "")
     except Exception as e:  # noqa
@@ -31,6 +31,26 @@ def all_keys():
     import vyxal.elements as E
 
     return list(E.elements) + list(progs.MODIFIER_ARITY) + ["X", "x"]
+
+
+def literal_texts():
+    """every literal token kind with every code-page character as payload (a literal is a valid token in every position too)"""
+    import vyxal.encoding as enc
+
+    out = []
+    for c in enc.codepage:
+        out.append("\\" + c + " ")                                  # character literal
+        body = {"`": "\\`", "\\": "\\\\"}.get(c, c)
+        out.append("`" + body + "` ")                                 # one-character string
+        out.append("‛" + c + "a ")                                    # two-character strings
+        out.append("‛a" + c + " ")
+        out.append("⁺" + c + " ")                                     # code-page number
+        if c != "«":
+            out.append("«" + c + "« ")
+        if c != "»":
+            out.append("»" + c + "» ")
+    out += ["1.5 ", ". ", "5. ", ".5 ", "0 ", "00 ", "1°2 ", "° ", "1° ", "°2 ", "→a ", "←a ", "→ ", "← ", "→_a ", "←_a ", "#c\n", "`a\\nb` ", "`` "]
+    return out
 
 
 def _ctx_shard(args):
@@ -52,6 +72,67 @@ def _ctx_shard(args):
                                    {"key": key if key in ("X", "x") or bad[0] == "compile" and "line 1:" in bad[2] and on == "top" and inn == "top" else key,
                                     "innermost": inn, "outer": on, "stage": bad[0]},
                                    "transpiles and compiles", "%s: %s %s" % bad, size=len(p))
+        part.nontriv()
+    return part.data()
+
+
+def _lit_shard(args):
+    lits, ctxs = args
+    part = explore.Partial()
+    for lit in lits:
+        for cn, ct in ctxs:
+            if lit.startswith("#") and cn in progs.MODIFIER_ARITY or lit.startswith("#") and cn[:1] in progs.MODIFIER_ARITY:
+                continue  # a comment is not an element: it cannot be a modifier's operand
+            p = progs.fill(ct, lit)
+            part.count(2)
+            bad = try_compile(p) or try_compile(p, False)   # with and without dictionary compression (flag D)
+            part.outcome((cn, bad is None))
+            if bad:
+                kind = lit[0] if lit[0] in "\\`‛⁺«»→←#" else "number"
+                msg = bad[2].split("(")[0].strip()
+                part.violation("literal", {"program": p, "literal": lit, "contexts": [cn]},
+                               "well-formed program does not %s: %s %s" % (bad[0], bad[1], msg),
+                               {"key": "literal " + kind, "innermost": cn, "outer": "-", "stage": bad[0], "payload": lit.strip()[-2:]},
+                               "transpiles and compiles", "%s: %s %s" % bad, size=len(p))
+        part.nontriv()
+    return part.data()
+
+
+def name_programs():
+    """names built from every code-page character that the documented name syntax (\\w+, Structures.md) accepts, at every
+    position that takes a name (the transpiler must reduce them to valid Python identifiers)"""
+    import re
+
+    import vyxal.encoding as enc
+
+    out = []
+    from vyxal.lexer import Token, TokenType, tokenise
+    from vyxal.parse import CLOSING_CHARACTERS, OPENING_CHARACTERS
+
+    for c in enc.codepage:
+        if not re.match(r"\w", c):
+            continue
+        if c in OPENING_CHARACTERS or c in CLOSING_CHARACTERS or tokenise(c + "a") != [Token(TokenType.GENERAL, c), Token(TokenType.GENERAL, "a")]:
+            continue  # structure syntax / digraph prefix / literal syntax: not a name character
+        for nm in ("a" + c, c + "a", c):
+            out += ["@%s|1;" % nm, "@%s|1;@%s;" % (nm, nm), "@%s;" % nm, "(%s|1)" % nm, "@f:%s|1;" % nm, "@f:a:%s|1;" % nm, "@f:%s:2|1;" % nm,
+                    "λ@%s|1;;" % nm, "[(%s|1)]" % nm]
+    return out
+
+
+def _name_shard(progs_):
+    part = explore.Partial()
+    for p in progs_:
+        part.count()
+        bad = try_compile(p)
+        part.outcome(bad is None)
+        if bad and bad[0] == "transpile" and bad[1] in ("ValueError", "AssertionError"):
+            part.skip("the transpiler refuses the program (no code returned)")
+            continue
+        if bad:
+            msg = bad[2].split("(")[0].strip()
+            part.violation("name", {"program": p}, "well-formed program does not %s: %s %s" % (bad[0], bad[1], msg),
+                           {"key": "name", "innermost": p[:2], "outer": "-", "stage": bad[0]}, "transpiles and compiles", "%s: %s %s" % bad, size=len(p))
         part.nontriv()
     return part.data()
 
@@ -127,6 +208,10 @@ def run(tier, seed):
         "top", "if-else", "if-elif-cond", "for", "while-cond", "while-body", "fn", "lambda", "list-1",
         "v", "ß", "₌B", "after-R", "after-⁽", "after-‡")]
     explore.pmap(_ctx_shard, [(c, outer, inner, None) for c in explore.chunks(keys, 64)], rep, seed)
+    lits = literal_texts()
+    lit_ctx = [c for c in ctxs if c[0] in ("top", "if-else", "for", "while-cond", "fn", "lambda", "list-1", "v", "₌B", "after-R")]
+    explore.pmap(_lit_shard, [(c, lit_ctx) for c in explore.chunks(lits, 64)], rep, seed)
+    explore.pmap(_name_shard, explore.chunks(name_programs(), 32), rep, seed)
     reps = template_classes() + list(progs.MODIFIER_ARITY) + ["X", "x"]
     core = [c for c in ctxs if c[0] in ("if-else", "if-elif-cond", "for", "while-cond", "while-body", "fn", "lambda", "map",
                                         "list-1", "v", "ß", "₌B", "≬B", "after-R", "after-†", "after-⁽", "after-≬")]
